@@ -31,9 +31,9 @@ theorem Ghost.F_step (P : Params) {g g' : Ghost} (x : Blk) (h1 : g'.done = g.don
   unfold Ghost.F; rw [h1, h2, h3]; simp [fRun, List.foldl_append]
 
 theorem PInv.intro {P : Params} {s : Proc} {g : Ghost} {held : Nat} {W : WSt} (F : FSt) (hF : g.F P = F) (hb : Back P s g F W)
-    (ha : Acct s g (boolNat s.blkCurrent.isSome + held)) (hf : FrontInv P.B s.fe g.front s.w.inodes.length)
+    (ha : Acct s g (boolNat s.blkCurrent.isSome + held))
     (hn : g.fin = true → g.pend = []) : PInv P s g held W := by
-  subst hF; exact ⟨hb, ha, hf, hn⟩
+  subst hF; exact ⟨hb, ha, hn⟩
 
 theorem blkCurrent_of_fe {s s' : Proc} (h : s'.fe = s.fe) : s'.blkCurrent = s.blkCurrent := by
   have := congrArg Front.blkCurrent h
@@ -104,16 +104,12 @@ theorem release_ok {P : Params} (hc : CodecOk P.codec) (hB : P.B < 2 ^ 24) :
       · obtain ⟨s1, W1, effs, hp, f1, f2, f3, f4, f5, f6, hb1⟩ := h.back.releaseOne hc hB b rest hq hs
         have hcur := blkCurrent_of_fe f1
         have hinv1 : PInv P s1 { g with h := g.h ++ effs, m := g.m ++ effs } held W1 := by
-          refine PInv.intro (g.F P) (Ghost.F_congr P rfl rfl) hb1 ?_ ?_ h.finNoPend
-          · have := h.acct
-            unfold Acct at *
-            rw [hq] at this
-            simp only [f2, f3, f4, hcur, List.length_cons] at this ⊢
-            omega
-          · have hlen : s1.w.inodes.length = s.w.inodes.length := by
-              have := inodes_len_release hp
-              exact this
-            rw [f1, hlen]; exact h.feInv
+          refine PInv.intro (g.F P) (Ghost.F_congr P rfl rfl) hb1 ?_ h.finNoPend
+          have := h.acct
+          unfold Acct at *
+          rw [hq] at this
+          simp only [f2, f3, f4, hcur, List.length_cons] at this ⊢
+          omega
         have hl1 : s1.ioQueue.length ≤ fuel := by rw [f3]; rw [hq] at hl; simpa using hl
         obtain ⟨s', g', W', hr, hinv', hfr, hle, hi, hpe, hdo, hpo, hhead⟩ := ih s1 _ held W1 hinv1 hl1
         refine ⟨s', g', W', ?_, hinv', ?_, ?_, hi, hpe, hdo, ?_, hhead⟩
@@ -207,7 +203,7 @@ theorem dequeueGo_ok {P : Params} (hP : P.ans = serialAns) (hc : CodecOk P.codec
             rw [hhd]
             simp only
             have h2 : PInv P { s1 with pool := (poolDequeue P s1.pool).1, ioQueue := storeIo x s1.ioQueue } { g1 with items := rest } 0 W1 := by
-              refine PInv.intro (g1.F P) (Ghost.F_congr P rfl rfl) hb2 ?_ h1.feInv h1.finNoPend
+              refine PInv.intro (g1.F P) (Ghost.F_congr P rfl rfl) hb2 ?_ h1.finNoPend
               have := Acct.deqStore hacct1 x rest hitems (poolDequeue P s1.pool).1 x { g1 with items := rest } rfl s1.ioSeqNum
               exact this
             have hm2 : rest.length + g1.pend.length < fuel := by
@@ -236,9 +232,8 @@ theorem dequeueGo_ok {P : Params} (hP : P.ans = serialAns) (hc : CodecOk P.codec
               simp only
               have hcur2 := blkCurrent_of_fe hfe2
               have h2 : PInv P s2 { g1 with items := rest ++ extra, pend := g1.pend.tail, done := g1.done ++ [x], h := g1.h ++ effs, m := g1.m ++ effs } 0 W1 := by
-                refine PInv.intro (fStep P (g1.F P) x) (Ghost.F_step P x rfl hfin hfin) hb2 ?_ ?_ ?_
+                refine PInv.intro (fStep P (g1.F P) x) (Ghost.F_step P x rfl hfin hfin) hb2 ?_ ?_
                 · rw [hcur2]; exact hac2
-                · rw [hfe2, hil2]; exact h1.feInv
                 · intro hf; rw [hfin] at hf; cases hf
               have hm2 : (rest ++ extra).length + g1.pend.tail.length < fuel := by
                 have e1 : g.items.length = rest.length + 1 := by rw [← hi1, hitems]; simp
@@ -265,7 +260,7 @@ theorem dequeueGo_ok {P : Params} (hP : P.ans = serialAns) (hc : CodecOk P.codec
               simp only
               have h2 : PInv P { s1 with pool := (poolDequeue P s1.pool).1, ioSeqNum := s1.ioSeqNum + 1, ioQueue := storeIo { x with seq := s1.ioSeqNum } s1.ioQueue }
                   { g1 with items := rest, pend := g1.pend.tail, done := g1.done ++ [x] } 0 W1 := by
-                refine PInv.intro (fStep P (g1.F P) x) (Ghost.F_step P x rfl hfin hfin) hb2 ?_ h1.feInv ?_
+                refine PInv.intro (fStep P (g1.F P) x) (Ghost.F_step P x rfl hfin hfin) hb2 ?_ ?_
                 · exact Acct.deqStore hacct1 x rest hitems (poolDequeue P s1.pool).1 _ _ rfl _
                 · intro hf; rw [hfin] at hf; cases hf
               have hm2 : rest.length + g1.pend.tail.length < fuel := by
@@ -332,7 +327,7 @@ theorem getNewBlockGo_ok {P : Params} (hP : P.ans = serialAns) (hc : CodecOk P.c
       exact ⟨s', g', W', hg, h', fr1.trans fr'⟩
     · rw [if_neg hge]
       refine ⟨_, g, W, rfl, ?_, ⟨rfl, rfl, rfl, rfl, rfl, rfl, id⟩⟩
-      refine PInv.intro (g.F P) rfl (h.back.backlogIrrel _) ?_ h.feInv h.finNoPend
+      refine PInv.intro (g.F P) rfl (h.back.backlogIrrel _) ?_ h.finNoPend
       have := h.acct
       unfold Acct at *
       simp only at this ⊢
